@@ -20,13 +20,17 @@ RULE = (
     "Hypothesis-generated IR modules (vf/genir.py); every real instruction becomes a unit = (class, operands, the "
     "RegisterUseDef pseudo-instructions directly before/after it; x86 `rep` + `movsb` form one unit); each harvested unit is "
     "tested as emitted and re-instantiated with other registers / immediates / displacements of the same operand shape "
-    "(vf/isagen.py, allocatable registers only). Each instance is executed (x86-64: natively through vf/x86step.c; RISC-V: "
+    "(vf/isagen.py, allocatable registers only). In addition EVERY class of the x86_64 / riscv / riscv:rvc isa that "
+    "vf/isagen.py instantiates (outside the excluded categories) is enumerated once per operand form (register mode and every "
+    "memory mode of its constructor-typed operand) as a stand-alone unit WITHOUT RegisterUseDef context, judged by the class' own "
+    "annotations: quick = three fixed operand tuples per form, thorough adds drawn tuples; forms that cannot be judged alone are "
+    "counted needs_context. Each instance is executed (x86-64: natively through vf/x86step.c; RISC-V: "
     "vf/rv32.py) on boundary-biased random register files (x86: 16 GPRs, 6 arithmetic flags, xmm0-15; RISC-V: x1-x31; address "
     "registers point into a refilled scratch arena) and, for every state, on copies that differ in the undeclared bits of ONE "
     "register. Oracle (writes): a ppci register whose bits changed must lie in the alias closure (arch.info.alias) of operand "
     "writes + clobbers + adjacent RegisterUseDef defs; (reads): runs that agree on declared reads + adjacent uses + flags + "
     "arena must agree on the declared output bits and on the arena. non-trivial = the instance names >= 2 registers "
-    "(operands or adjacent uses/defs); distinct = (target, class, operand shape, adjacent use/def signature)"
+    "(operands or adjacent uses/defs); distinct = (harvested | isa sweep, target, class, operand shape, adjacent use/def signature)"
 )
 ASSUMPTIONS = [
     "the host CPU implements the x86-64 architecture as documented (it is the reference machine); vf/rv32.py implements RV32IMC as documented (validated independently of ppci by its self-check, refused otherwise)",
